@@ -3,6 +3,7 @@ import itertools
 import random
 import re
 
+import corpus as C
 import corpus_run as CR
 import vlib
 from vlib import coq_list
@@ -161,6 +162,19 @@ def extra_items():
         return [(EXTRA_ITEMS[k], msg) for k, msg in sorted(bad.items())]
 
 
+_OWN = None
+
+
+def own_diagnostic(why):
+    """is this compile error one of the messages the derive emits itself (syn_err! / syn_err_spanned! of the current source)?"""
+    global _OWN
+    if _OWN is None:
+        import tables_from_source as T
+        _OWN = [re.compile(re.sub(r"\\\{[^}]*\\\}", ".*", re.escape(msg)) + r"\s*$") for _, msg in T.syn_errs()]
+    w = why.strip()
+    return any(r.match(w) or r.search(w) for r in _OWN)
+
+
 def run(ctx):
     ctx.prove()
     ok, out = vlib.coq_make(["theories/Model/Validity.vo", "theories/Tools/Digest.vo"])
@@ -284,6 +298,10 @@ def run(ctx):
                 pass     # serde's own requirements on generated items (skip needs Default): generator artefact, not the ts-rs derive
             else:
                 viol.append(data)
+        elif not own_diagnostic(why):
+            # a diagnostic that is none of the derive's own (`syn_err!` messages of the current source): the derive turned a valid item away
+            viol.append(dict(kind="property-violated", what="the derive rejects a valid item with a diagnostic that is none of its own",
+                             definition=ident, diagnostic=why, rust=next((C.to_rust(d) for d in res.get("all_defs", []) if d["ident"] == ident), None), seed=ctx.seed))
     # items using Rust features the model has no notion of (const parameters with and without defaults, lifetimes, bounds,
     # where clauses, raw identifiers): the derive accepts them, so the expansion has to compile
     extra_bad = extra_items()
